@@ -132,7 +132,8 @@ var portPool = []string{"any", "fragment", "0", "1", "80", "080", "443", "65535"
 	"+80", "-1", "1-", "-5", "-", " - ", "1-2", " 1 - 2 ", "1 -2", "0-5", "0-0", "0-65535", "5-3", "1-65535", "1-65536", "1-70000", "70000-1",
 	"a-b", "1-b", "a-2", "80 ", " 80", "8 0", "0x50", "1_000", "1e3", "٨٠", "８０", "", " ", "  ", "1--2", "1-2-3", "any ", "ANY", "Any",
 	"Fragment", "fragment ", "any-any", "1-any", "00000000000000000080", "00-5", "65535-65535", "65536-65537", "80.0", "1,2", "200-901",
-	"70000x", "7000x", "x70000", "1-70000x", "999999999999999999999999x"}
+	"70000x", "7000x", "x70000", "1-70000x", "999999999999999999999999x",
+	"1\t-\t2", "1-2\n", "\t80", "80\n", "1 -\t2", "\u00a01-2", "1-2\u00a0", "1\r-2"}
 
 func genPort(r *hlib.Rand) string {
 	switch r.Intn(10) {
@@ -144,7 +145,7 @@ func genPort(r *hlib.Rand) string {
 		return strconv.Itoa(65530 + r.Intn(12))
 	case 6:
 		a, b := r.Intn(66000), r.Intn(66000)
-		sp := hlib.Pick(r, "", "", " ", "  ")
+		sp := hlib.Pick(r, "", "", " ", "  ", "\t")
 		return fmt.Sprintf("%s%d%s-%s%d%s", sp, a, hlib.Pick(r, "", " "), hlib.Pick(r, "", " "), b, sp)
 	case 7:
 		a := r.Intn(3)
